@@ -246,15 +246,29 @@ export function splitProgram(prog, rng, { collide = false } = {}) {
   for (const f of files) {
     const { importLines, rename, decls } = texts[f];
     const lines = [...importLines, ...(noise.get(f) || [])];
+    // some modules export through a list at the end instead of `export` on the declaration:
+    // `export { A, B }`, `export type { A, B }` (also for values, which a `typeof` query may still
+    // use) or `export { type A, B }`
+    const listMode = !collision && rng.chance(0.3) ? rng.pick(["plain", "type", "inline-type", "mixed"]) : null;
+    const exportList = [];
     for (const d0 of decls) {
       let d = renameDecl(d0, rename);
       if (collision && collision.original === d.name) d = { ...d, name: collision.as };
-      const isExported = exported.get(f).has(d0.name);
+      let isExported = exported.get(f).has(d0.name);
+      if (isExported && listMode && !(listMode === "mixed" && rng.chance(0.5))) {
+        exportList.push(d.name);
+        isExported = false;
+      }
       const dtsDeclare = f.endsWith(".d.ts");
       let text = renderDecl({ ...d, exported: isExported });
       if (dtsDeclare && d.d === "const") text = text.replace(/^(export )?const/, "$1declare const");
       lines.push(text);
       if (defaultOf.get(f) === d0.name) lines.push(`export default ${d.name};`);
+    }
+    if (exportList.length) {
+      if (listMode === "type") lines.push(`export type { ${exportList.join(", ")} };`);
+      else if (listMode === "inline-type") lines.push(`export { ${exportList.map((n) => `type ${n}`).join(", ")} };`);
+      else lines.push(`export { ${exportList.join(", ")} };`);
     }
     // rename inside a file that hosts the collided declaration: its own references to the original name
     lines.push(...reexports.get(f));
